@@ -12,7 +12,9 @@ spec: {"service_module", "client", "transport": "grpc"|"grpc_asyncio"|"rest" (re
        "request_fields": {...}, "path": "/pkg.Svc/Rpc" (rest: the URL path),
        "script": ["UNAVAILABLE", "OK", ...]  (one entry per attempt; after the script the server answers "after"),
        "after": "OK"|code, "jitter": "max"|"min"|0.5, "retry": absent | "none" | {initial, maximum, multiplier, codes, deadline},
-       "timeout": absent | null | number, "max_attempts_guard": 60}
+       "timeout": absent | null | number, "max_attempts_guard": 60,
+       "stream": true for a SERVER-STREAMING rpc (the stream is read to its end; -> also "items": n; over REST the OK answer is a JSON
+       array of one message, and "client_timeouts" holds what the session was handed: a number, null, or [connect, read])}
 spec (paged listing): as a call, plus "pager": {"pages_b64": [serialized page responses...]}: the whole listing is walked
        (sync: list(pager), asyncio: async for); the OK entries of "script" answer with the successive pages; -> also "items": n
 spec (inspection, no call made): {"inspect": true, "service_module", "client", "transport", "methods": [python names]}
@@ -127,7 +129,8 @@ class _Details(collections.namedtuple("_Details", ("method", "timeout", "metadat
     pass
 
 
-def make_client(pkg, spec, target, seen):
+def make_client(pkg, spec, target, seen, streams=None):
+    streams = [] if streams is None else streams
     """The emitted client on a channel that records the timeout argument of every attempt (client side, exact)."""
     import grpc, importlib
     svc = importlib.import_module(f"{pkg}.services.{spec['service_module']}")
@@ -141,9 +144,18 @@ def make_client(pkg, spec, target, seen):
         real = tr._session.request
 
         def recording_request(method, url, *a, **k):
-            seen.append(k.get("timeout"))
-            if k.get("timeout") is not None:
-                k["timeout"] = k["timeout"] + REAL_SLACK
+            # exactly what the session was handed: a number, None, or requests' (connect, read) pair (recorded as a list;
+            # a part that is None means NO deadline for that phase)
+            t = k.get("timeout")
+            seen.append(list(t) if isinstance(t, tuple) else t)
+            streams.append(bool(k.get("stream")))
+            if isinstance(t, tuple):
+                k["timeout"] = tuple((x + REAL_SLACK) if isinstance(x, (int, float)) else x for x in t)
+                if any(x is None for x in t):
+                    # never hang the driver on a lost deadline
+                    k["timeout"] = tuple(REAL_SLACK if x is None else x for x in k["timeout"])
+            elif t is not None:
+                k["timeout"] = t + REAL_SLACK
             return real(method, url, *a, **k)
         tr._session.request = recording_request
         return getattr(svc, spec["client"])(transport=tr)
@@ -154,23 +166,33 @@ def make_client(pkg, spec, target, seen):
                 if details.timeout is not None:
                     details = details._replace(timeout=details.timeout + REAL_SLACK)
                 return await continuation(details, request)
-        ch = grpc.aio.insecure_channel(target, interceptors=[Rec()])
+
+        class RecS(grpc.aio.UnaryStreamClientInterceptor):
+            async def intercept_unary_stream(self, continuation, details, request):
+                seen.append(details.timeout)
+                if details.timeout is not None:
+                    details = details._replace(timeout=details.timeout + REAL_SLACK)
+                return await continuation(details, request)
+        ch = grpc.aio.insecure_channel(target, interceptors=[Rec(), RecS()])
     else:
-        class Rec(grpc.UnaryUnaryClientInterceptor):
+        class Rec(grpc.UnaryUnaryClientInterceptor, grpc.UnaryStreamClientInterceptor):
             def intercept_unary_unary(self, continuation, details, request):
                 seen.append(details.timeout)
                 if details.timeout is not None:
                     details = _Details(details.method, details.timeout + REAL_SLACK, details.metadata, details.credentials,
                                        getattr(details, "wait_for_ready", None), getattr(details, "compression", None))
                 return continuation(details, request)
+
+            intercept_unary_stream = intercept_unary_unary     # a server-streaming rpc: the same record
         ch = grpc.intercept_channel(grpc.insecure_channel(target), Rec())
     return getattr(svc, spec["client"])(transport=tcls(channel=ch))
 
 
-def run_one(spec, gs, pkg, clock, seen):
+def run_one(spec, gs, pkg, clock, seen, streams=None):
     is_async = spec["transport"] == "grpc_asyncio"
     kw = call_kwargs(spec, is_async)
-    paged = "pager" in spec
+    # a paged listing is walked, a server stream is read to its end
+    paged = "pager" in spec or bool(spec.get("stream"))
     if is_async:
         async def go():
             client = make_client(pkg, spec, gs.target, seen)
@@ -181,7 +203,7 @@ def run_one(spec, gs, pkg, clock, seen):
                 return [x async for x in out]
             return out
         return asyncio.run(go())
-    client = make_client(pkg, spec, gs.target if spec["transport"] != "rest" else gs.http_host, seen)
+    client = make_client(pkg, spec, gs.target if spec["transport"] != "rest" else gs.http_host, seen, streams)
     req = D.resolve(spec["request_cls"])(**(spec.get("request_fields") or {}))
     out = getattr(client, spec["method"])(request=req, **kw)
     return list(out) if paged else out
@@ -246,7 +268,8 @@ def main():
 
         def http_reply(c):
             if c == "OK":
-                return {"status": 200, "body": "{}"}
+                # a server stream over REST is one JSON array of messages
+                return {"status": 200, "body": "[{}]" if spec.get("stream") else "{}"}
             st = HTTP_STATUS[c]
             return {"status": st, "body": json.dumps({"error": {"code": st, "message": "scripted", "status": c}})}
         if spec["transport"] == "rest":
@@ -255,6 +278,7 @@ def main():
         # the handler stamps each call with the virtual time at which it arrived
         rec = {"ok": True}
         seen = []
+        streams = []
         guard = spec.get("max_attempts_guard", 60)
         with Patched(clock):
             orig_sleep = clock.sleep
@@ -269,8 +293,8 @@ def main():
             for m in (retry_base, retry_unary, retry_unary_async):
                 m.time.sleep = guarded_sleep
             try:
-                got = run_one(spec, gs, spec.get("package") or payload["package"], clock, seen)
-                if "pager" in spec:
+                got = run_one(spec, gs, spec.get("package") or payload["package"], clock, seen, streams)
+                if "pager" in spec or spec.get("stream"):
                     rec["items"] = len(got)
             except Exception as e:  # noqa
                 rec["ok"] = False
@@ -284,6 +308,7 @@ def main():
         if spec["transport"] == "rest":
             rec["attempts"] = [{"path": c["path"], "time_remaining": None, "verb": c["verb"]} for c in hs.take_calls()]
         rec["client_timeouts"] = seen
+        rec["rest_stream_flags"] = streams
         rec["sleeps"] = clock.sleeps
         rec["uniform"] = clock.uniform
         results.append(rec)
